@@ -115,7 +115,7 @@ func sceneRespond(o ReqOpts) {
 		chk("C14", vf.Implies(b0.Available, b0.Deposit.AmountOf(Denom).GTE(MinDepositRef(k, ctx, s.Binds[0].Pricing.Price.AmountOf(Denom)))), "available-holds-minimum")
 	}
 	// ---- records
-	chk("C08 C02 C16", vf.All(!k.IsRequestActive(ctx, rid), !vf.Store(ctx).Has(types.GetActiveRequestKey(Svc, s.Provs[0], s.ExpH, rid))), "marker-removed-so-no-second-settlement")
+	chk("C08 C02 C16 C01 C04 C11", vf.All(!k.IsRequestActive(ctx, rid), !vf.Store(ctx).Has(types.GetActiveRequestKey(Svc, s.Provs[0], s.ExpH, rid))), "marker-removed-so-no-second-settlement")
 	resp, ok := k.GetResponse(ctx, rid)
 	chk("C12 C16", vf.All(ok, resp.Output == output, resp.Provider.Equals(s.Provs[0]), resp.RequestContextBatchCounter == bc), "response-recorded")
 	chk("C12 C16", vf.All(nreq == s.M, nresp == nresp0+1, nact == nact0-1), "records-move-pending-to-answered")
